@@ -192,7 +192,8 @@ fn known_match<'a>(k: &'a KnownFindings, prop: &str, class: &str) -> Option<&'a 
 /// Every run executes on a fresh OS thread; without this each run pays for arena growth/trim page
 /// faults, which serialise badly across 16 processes in this VM (measured 5x).
 pub fn malloc_env() -> Vec<(&'static str, &'static str)> {
-    vec![("MALLOC_ARENA_MAX", "1"), ("MALLOC_TRIM_THRESHOLD_", "2000000000"), ("MALLOC_TOP_PAD_", "268435456"), ("MALLOC_MMAP_THRESHOLD_", "1073741824")]
+    // (allocations of 64 MiB and more — only a length field read from damaged data asks for those — are mmapped and go back to the OS when freed)
+    vec![("MALLOC_ARENA_MAX", "1"), ("MALLOC_TRIM_THRESHOLD_", "2000000000"), ("MALLOC_TOP_PAD_", "268435456"), ("MALLOC_MMAP_THRESHOLD_", "67108864")]
 }
 
 pub struct TierSpec {
@@ -394,7 +395,11 @@ pub fn check_main(args: &[String]) -> i32 {
     if !new_violations.is_empty() {
         crate::warm_up();
     }
-    for (class, f) in new_violations.iter().take(4) {
+    // (classes that killed a worker process last: they cannot be minimised, and whether they replay
+    // can depend on what else the process had executed)
+    new_violations.sort_by_key(|(c, _)| c.starts_with("process_abort"));
+    let mut unreproduced: Vec<String> = Vec::new();
+    for (class, f) in new_violations.iter().take(5) {
         let is_abort = class.starts_with("process_abort");
         // (a plan that kills the process cannot be minimised in-process)
         let (plan, minimised) = if is_abort { (f.plan.clone(), false) } else { minimise(&f.plan, class, 45) };
@@ -426,7 +431,20 @@ pub fn check_main(args: &[String]) -> i32 {
             exit = 1;
             reported += 1;
         } else {
-            eprintln!("HARNESS-ERROR violation class={class} (run index {}) did not reproduce from {path} in a fresh process (replay exit {:?})", f.index, st.code());
+            unreproduced.push(format!("violation class={class} (run index {}) did not reproduce from {path} in a fresh process (replay exit {:?})", f.index, st.code()));
+            reported += 1;
+        }
+    }
+    if !unreproduced.is_empty() {
+        if exit == 1 {
+            // something reproducible was reported; what did not reproduce is mentioned, not claimed
+            for u in &unreproduced {
+                println!("NOTE: {u}");
+            }
+        } else {
+            for u in &unreproduced {
+                eprintln!("HARNESS-ERROR {u}");
+            }
             return 2;
         }
     }
@@ -744,27 +762,40 @@ pub fn selftest_determinism(args: &[String]) -> i32 {
         // configuration A: 1 process, all runs in order; B: 4 processes, strided; C: reverse chunks
         let mut results: Vec<BTreeMap<u64, u64>> = Vec::new();
         for (jobs, label) in [(1u64, "A"), (4, "B"), (7, "C")] {
-            let mut children = Vec::new();
-            for w in 0..jobs {
-                let count = (n + jobs - 1 - w) / jobs;
-                if count == 0 {
-                    continue;
-                }
-                let c = std::process::Command::new(&exe)
-                    .envs(malloc_env())
-                    .args(["hashes", "--prop", prop, "--seed", &seed.to_string(), "--start", &w.to_string(), "--stride", &jobs.to_string(), "--count", &count.to_string()])
-                    .stdout(std::process::Stdio::piped())
-                    .spawn()
-                    .unwrap();
-                children.push(c);
-            }
+            // (strided slices; a slice whose process dies — an open finding makes the database abort
+            // inside its own panic message formatting — is resumed after the run that died, which
+            // gets a fixed marker instead of a hash)
+            let mut pending: Vec<(u64, u64)> = (0..jobs).map(|w| (w, (n + jobs - 1 - w) / jobs)).filter(|x| x.1 > 0).collect();
             let mut m = BTreeMap::new();
-            for c in children {
-                let o = c.wait_with_output().unwrap();
-                for l in o.stdout.lines().map_while(Result::ok) {
-                    let mut it = l.split_whitespace();
-                    if let (Some("H"), Some(i), Some(h)) = (it.next(), it.next(), it.next()) {
-                        m.insert(i.parse::<u64>().unwrap(), u64::from_str_radix(h, 16).unwrap());
+            while !pending.is_empty() {
+                let mut children = Vec::new();
+                for (start, count) in pending.drain(..) {
+                    let c = std::process::Command::new(&exe)
+                        .envs(malloc_env())
+                        .args(["hashes", "--prop", prop, "--seed", &seed.to_string(), "--start", &start.to_string(), "--stride", &jobs.to_string(), "--count", &count.to_string()])
+                        .stdout(std::process::Stdio::piped())
+                        .stderr(std::process::Stdio::null())
+                        .spawn()
+                        .unwrap();
+                    children.push((start, count, c));
+                }
+                for (start, count, c) in children {
+                    let o = c.wait_with_output().unwrap();
+                    let mut got = 0u64;
+                    for l in o.stdout.split(|b| *b == b'\n') {
+                        let l = String::from_utf8_lossy(l);
+                        let mut it = l.split_whitespace();
+                        if let (Some("H"), Some(i), Some(h)) = (it.next(), it.next(), it.next()) {
+                            m.insert(i.parse::<u64>().unwrap(), u64::from_str_radix(h, 16).unwrap());
+                            got += 1;
+                        }
+                    }
+                    if got < count {
+                        let died_at = start + got * jobs;
+                        m.insert(died_at, 0xAB0127ED_AB0127ED);
+                        if got + 1 < count {
+                            pending.push((died_at + jobs, count - got - 1));
+                        }
                     }
                 }
             }
